@@ -4,6 +4,7 @@ import Driver.Sym
 import Driver.Aead
 import Driver.Keyset
 import Driver.Wrap
+import Driver.Jwt
 /-!
   `tvdrv`: one line in, one line out. The first token selects the model.
   Unknown or malformed lines answer `bad-op` (never a default).
@@ -14,6 +15,7 @@ structure DState where
   mgr : Driver.Mgr.St := {}
   strm : Driver.Strm.St := {}
   wrap : Driver.Wr.St := []
+  jwt : Driver.Jw.St := {}
 
 def dispatch (st : DState) (line : String) : DState × String :=
   let toks := (line.trimAscii.toString.splitOn " ").filter (· ≠ "")
@@ -37,6 +39,10 @@ def dispatch (st : DState) (line : String) : DState × String :=
   | "W" :: rest =>
     match Driver.Wr.handle st.wrap rest with
     | some (w, out) => ({ st with wrap := w }, out)
+    | none => (st, "bad-op")
+  | "J" :: rest =>
+    match Driver.Jw.handle st.jwt rest with
+    | some (j, out) => ({ st with jwt := j }, out)
     | none => (st, "bad-op")
   | "K" :: rest =>
     match Driver.Ks.handle rest with
